@@ -24,6 +24,7 @@ type Env struct {
 	pkg     string // package path for name resolution
 	recSelf *specFunInfo
 	rangeIter *ssa.Range
+	inApply bool // translating the expression of an `apply` clause: lemma calls denote (requires ==> ensures)
 }
 
 func (e *Env) clone() *Env {
@@ -383,6 +384,61 @@ func (f *FnVC) trExpr(env *Env, e SExpr) TV {
 	return TV{}
 }
 
+// lemmaInstance: inside an `apply` clause a call  lemma(args)  denotes the lemma's statement for these arguments,
+// (requires ==> ensures), evaluated in the current state. The lemma is a ghost function with a proved contract.
+func (f *FnVC) lemmaInstance(env *Env, name string, argsE []SExpr) (TV, bool) {
+	pkg := f.pkgPath()
+	ct := f.g.specs.Contracts[pkg+"."+name]
+	if ct == nil || ct.Extern {
+		return TV{}, false
+	}
+	fn := f.g.findFunc(pkg, name)
+	if fn == nil {
+		return TV{}, false
+	}
+	if ct.Trusted || !ct.HasAssign || len(ct.Assigns) != 0 || ct.AssignsAll {
+		sfail("lemma %s must be proved (not trusted) and declare 'assigns nothing'", name)
+	}
+	if len(argsE) != len(fn.Params) {
+		sfail("lemma %s takes %d arguments", name, len(fn.Params))
+	}
+	proved := false
+	for _, p := range ct.Props {
+		if p == f.g.curProp {
+			proved = true
+		}
+	}
+	if !proved {
+		sfail("lemma %s is not proved under this property's check (add it to the lemma's props)", name)
+	}
+	n := env.clone()
+	n.inApply = false
+	n.lazy = nil
+	n.old = env.st
+	for i, a := range argsE {
+		tv := f.trExpr(env, a)
+		want := f.tv("x", fn.Params[i].Type())
+		if c2, ok := f.coerce(tv, want); ok {
+			tv = c2
+		}
+		n.vars[fn.Params[i].Name()] = tv
+	}
+	n.oldVars = n.vars
+	var req, ens []string
+	for _, r := range ct.Requires {
+		req = append(req, f.trBool(n, r.E))
+	}
+	for _, e := range ct.Ensures {
+		if id, ok := e.E.(SIdent); ok && id.Name == "nopanic" {
+			continue
+		}
+		ens = append(ens, f.trBool(n, e.E))
+	}
+	f.lemmaUsed = true
+	f.trusted["lemma "+name+" (ghost function with its own proved contract) used as a fact"] = true
+	return TV{sImp(sAnd(req...), sAnd(ens...)), boolTy, "Bool"}, true
+}
+
 func sIntText(v string) string { return v }
 
 func (f *FnVC) unify(a, b TV) (TV, TV) {
@@ -458,7 +514,19 @@ func (f *FnVC) trBin(env *Env, x SBin) TV {
 		return TV{t, boolTy, "Bool"}
 	case "<", "<=", ">", ">=":
 		if a.Sort == "Str" {
-			sfail("string ordering not supported in specs")
+			// Go's bytewise lexicographic order on strings: the uninterpreted strict order str_lt (same symbol as in code)
+			f.declFun("str_lt", []string{"Str", "Str"}, "Bool")
+			lt := func(p, q string) string { return sApp("str_lt", p, q) }
+			switch x.Op {
+			case "<":
+				return TV{lt(a.T, b.T), boolTy, "Bool"}
+			case ">":
+				return TV{lt(b.T, a.T), boolTy, "Bool"}
+			case "<=":
+				return TV{sOr(lt(a.T, b.T), sEq(a.T, b.T)), boolTy, "Bool"}
+			default:
+				return TV{sOr(lt(b.T, a.T), sEq(a.T, b.T)), boolTy, "Bool"}
+			}
 		}
 		return TV{"(" + x.Op + " " + a.T + " " + b.T + ")", boolTy, "Bool"}
 	case "+":
@@ -669,6 +737,11 @@ func (f *FnVC) trCall(env *Env, x SCall) TV {
 	id, ok := x.Fun.(SIdent)
 	if !ok {
 		sfail("unsupported call %s", sexprString(x))
+	}
+	if env.inApply {
+		if tv, ok := f.lemmaInstance(env, id.Name, x.Args); ok {
+			return tv
+		}
 	}
 	arg := func(i int) TV {
 		if i >= len(x.Args) {
